@@ -74,7 +74,7 @@ def check_property(prop, tier="quick", seed=0, update_lock=False):
     fe = Frontend()
     meta = reg.properties.get(prop, {}) if hasattr(reg, "properties") else {}
     own, lemmas, axioms = closure(reg, prop)
-    timeout = 10000 if tier == "quick" else 60000
+    timeout = 20000 if tier == "quick" else 90000
     all_obs = []            # (Obligation, group)
     fun_results = []
     undecided = []
